@@ -375,7 +375,9 @@ func (a *Allocation) WriteTo(p []byte, addr net.Addr) (n int, err error) {
 const rtpMTU = 1600
 
 func (a *Allocation) packetConnHandler(manager *Manager) {
-	buffer := make([]byte, rtpMTU)
+	// One byte more than the largest datagram that is relayed, so that a
+	// longer datagram can be told apart from one that just fits.
+	buffer := make([]byte, rtpMTU+1)
 
 	for {
 		n, srcAddr, err := a.relayPacketConn.ReadFrom(buffer)
@@ -383,6 +385,15 @@ func (a *Allocation) packetConnHandler(manager *Manager) {
 			manager.DeleteAllocation(a.fiveTuple)
 
 			return
+		}
+
+		if n > rtpMTU {
+			// The datagram was cut to the buffer size by the socket layer:
+			// drop it rather than relay a truncated payload as if it were whole.
+			a.log.Debugf("Relay socket %s: dropping datagram from %s longer than %d bytes",
+				a.relayPacketConn.LocalAddr(), srcAddr, rtpMTU)
+
+			continue
 		}
 
 		a.log.Debugf("Relay socket %s received %d bytes from %s",
